@@ -13,7 +13,6 @@ use std::collections::BTreeMap;
 
 use winter_crypto::{DefaultRandomCoin, ElementHasher, Hasher, MerkleTree, RandomCoin};
 use winter_math::{FieldElement, StarkField};
-use winter_utils::Serializable;
 
 use crate::cfg::Sched;
 use crate::model::{fold_row, horner, interp_coset, lagrange_coeffs, model_fold_positions, own_fold, LayerGeom};
@@ -107,8 +106,12 @@ pub struct Verdict {
     pub remainder_size_ok: bool,
     /// remainder agrees with the folded values at every last-layer position
     pub remainder_consistent: bool,
-    /// proof has the shape the schedule prescribes
+    /// proof has the shape the schedule prescribes, or deviates only in a way that leaves everything the
+    /// verifier reads untouched (see `trailing_duplicate`)
     pub structure_ok: bool,
+    /// the last committed layer (and optionally its commitment) was duplicated right before the remainder:
+    /// the verifier reads the same L layers, the same L roots and derives the same challenges
+    pub trailing_duplicate: bool,
     /// first layer at which something the verifier can see is wrong (for labels)
     pub first_bad: Option<String>,
 }
@@ -228,6 +231,7 @@ where
     // ---- structure manipulation of the commitment list ---------------------------------------------
     let mut sent_commitments = commitments.clone();
     let mut structure_ok = true;
+    let mut trailing_duplicate = false;
     match plan.structure {
         Structure::None => {},
         Structure::Omit { layer, commitment_too } => {
@@ -237,7 +241,11 @@ where
             }
         },
         Structure::Duplicate { layer, commitment_too } => {
-            structure_ok = false;
+            if layer + 1 == big_l {
+                trailing_duplicate = true;
+            } else {
+                structure_ok = false;
+            }
             if commitment_too {
                 let c = sent_commitments[layer];
                 sent_commitments.insert(layer + 1, c);
@@ -263,6 +271,7 @@ where
         remainder_size_ok: true,
         remainder_consistent: true,
         structure_ok,
+        trailing_duplicate,
         first_bad: None,
     };
     if !structure_ok {
